@@ -16,6 +16,7 @@ import (
 	"time"
 
 	bnet "github.com/bio-routing/bio-rd/net"
+	"github.com/bio-routing/bio-rd/protocols/bgp/types"
 
 	"verifharness/internal/gen"
 	"verifharness/internal/rig"
@@ -79,7 +80,7 @@ func genHist(rng *rand.Rand, nops int) hist {
 		if sl.src < 0 {
 			h.Paths[id] = rig.Attr{ID: id, Static: true}
 		} else {
-			a := rig.GenPath(rng, id, rig.Sources[sl.src], rig.PathOpts{Dedup: true, Unknown: true, RRAttrs: true})
+			a := rig.GenPath(rng, id, rig.Sources[sl.src], rig.PathOpts{Dedup: true, Unknown: true, RRAttrs: true, WellKnownMix: true})
 			a.PathID = uint32(sl.rx)
 			// sometimes a sibling of a stored path from the same source that differs in communities only
 			if sl.rx > 0 {
@@ -174,6 +175,9 @@ type stats struct {
 	announced, withdrawn, bestChanges    map[string]int
 	sawAnnounce, sawWithdraw, sawReplace bool
 	sawStatic, sawLate, sawAddPathMulti  bool
+	// distinct (session, path) pairs: an admitted path on which "rewrites, then policy" and "policy, then rewrites"
+	// differ; a selected path with NO_EXPORT in front of NO_ADVERTISE on an iBGP session
+	orderDecides, noAdvBehindNoExport int
 	byWhy                                map[string]int
 }
 
@@ -228,6 +232,7 @@ func runHist(h hist) (res result) {
 	for i, p := range h.Universe {
 		bio[i] = p.Bio()
 	}
+	orderSeen, wkSeen := map[[2]uint32]bool{}, map[[2]uint32]bool{}
 	blockedSeen := map[int]bool{}      // session index -> a selected path barred by R1-R3 was seen at an earlier evaluation
 	inLoc := map[int]map[uint32]bool{} // harness' own record of what it put into the Loc-RIB (for the stale/extra distinction only)
 	for i, o := range h.Ops {
@@ -351,7 +356,15 @@ func runHist(h hist) (res result) {
 						why[a.ID] = "not-selected"
 						continue
 					}
-					c, m, w := rig.Candidates(l, s, pol, p, a)
+					c, m, w := rig.CandidatesPolicyLast(l, s, pol, p, a)
+					if key := [2]uint32{uint32(si), a.ID}; s.IBGP() && !wkSeen[key] && noAdvertiseBehindNoExport(a) {
+						wkSeen[key] = true
+						st.noAdvBehindNoExport++
+					}
+					if key := [2]uint32{uint32(si), a.ID}; len(c) > 0 && s.Kind == rig.EBGP && !orderSeen[key] && rig.OrderMatters(l, s, pol, p, a) {
+						orderSeen[key] = true
+						st.orderDecides++
+					}
 					if len(c) == 0 {
 						why[a.ID] = w
 						st.byWhy[strings.SplitN(w, ":", 2)[0]]++
@@ -660,6 +673,20 @@ func hasTie(h hist, pi int, id uint32, form func(rig.Attr) rig.Attr) bool {
 	return false
 }
 
+// noAdvertiseBehindNoExport: the path carries NO_ADVERTISE somewhere behind a NO_EXPORT community.
+func noAdvertiseBehindNoExport(a rig.Attr) bool {
+	ne := false
+	for _, c := range a.Comms {
+		if c == types.WellKnownCommunityNoExport {
+			ne = true
+		}
+		if c == types.WellKnownCommunityNoAdvertise && ne {
+			return true
+		}
+	}
+	return false
+}
+
 func fieldsOf(a rig.Attr, fs []string) string {
 	var p []string
 	for _, f := range fs {
@@ -670,9 +697,10 @@ func fieldsOf(a rig.Attr, fs []string) string {
 
 func main() {
 	vf.Main("C08", "exploration", func(r *vf.Run) {
-		r.Rule("PRNG Loc-RIB histories (add / remove / replace-in-place / same neighbour re-announces) over 8 adversarial prefixes of one family with paths learned from two eBGP peers, an iBGP peer and an RR client (LOCAL_PREF, AS_PATH incl. sets and empty, MED, origin, NO_EXPORT / NO_ADVERTISE / plain communities, OTC own/other, ORIGINATOR_ID+CLUSTER_LIST, unknown attributes, add-path-received siblings that differ in communities only, deduplicated attribute blocks) and redistributed static routes; 2-4 sessions per history from {eBGP, eBGP RS client, iBGP, iBGP RR client} x {best only, add-path 2, add-path 4} x {accept, accept/reject by prefix, rewriting chain}, target peers often equal to a source, eBGP sessions sometimes with RFC 9234 roles, some sessions registered late (initial dump). After every operation every session's Adj-RIB-Out is compared with the reference export view. distinct_nontrivial = histories in which the sessions' clients saw an announcement, a withdrawal and a best-path change, and some add-path session had >= 2 paths selected")
+		r.Rule("PRNG Loc-RIB histories (add / remove / replace-in-place / same neighbour re-announces) over 8 adversarial prefixes of one family with paths learned from two eBGP peers, an iBGP peer and an RR client (LOCAL_PREF, AS_PATH incl. sets and empty, MED, origin, NO_EXPORT / NO_ADVERTISE / plain communities and mixes of them in either order, OTC own/other, ORIGINATOR_ID+CLUSTER_LIST, unknown attributes, add-path-received siblings that differ in communities only, deduplicated attribute blocks) and redistributed static routes; 2-4 sessions per history from {eBGP, eBGP RS client, iBGP, iBGP RR client} x {best only, add-path 2, add-path 4} x {accept, accept/reject by prefix, rewriting chain: set LOCAL_PREF / MED / a third-party next hop, prepend a foreign ASN}, target peers often equal to a source, eBGP sessions sometimes with RFC 9234 roles, some sessions registered late (initial dump). After every operation every session's Adj-RIB-Out is compared with the reference export view. distinct_nontrivial = histories in which the sessions' clients saw an announcement, a withdrawal and a best-path change, and some add-path session had >= 2 paths selected")
 		r.Assume("the Loc-RIB's content and path order after each operation are taken as input", "static and BGP paths are kept on different prefixes",
-			"attribute defaults of a redistributed static route and the order of policy vs. session rewrites are bio-rd's choice: every outcome consistent with the statement is accepted",
+			"attribute defaults of a redistributed static route are bio-rd's choice: every outcome consistent with the statement is accepted",
+			"the export policy runs on the path as the session rewrote it and has the last word (a next hop it sets is the advertised one, ASNs it prepends stand in front of the local ASN); policy_order_decides_session_paths counts the (plain eBGP session, admitted path) pairs on which the other order would give a different Adj-RIB-Out",
 			"ORIGINATOR_ID/CLUSTER_LIST on non-reflected routes towards an RR client and AS_PATH/next hop towards an RS client: both outcomes accepted")
 		_, replay := r.Replaying()
 		hg := rig.NewHangGuard(replay)
@@ -724,6 +752,8 @@ func main() {
 			r.Count("operations", st.ops)
 			r.Count("histories", 1)
 			r.Count("stale_entry_checks", st.staleChecks)
+			r.Count("policy_order_decides_session_paths", st.orderDecides)
+			r.Count("no_advertise_behind_no_export_on_ibgp_session_paths", st.noAdvBehindNoExport)
 			mu.Lock()
 			for k, v := range st.announced {
 				announced[k] += v
@@ -765,6 +795,8 @@ func main() {
 		r.Set("paths_not_exported_by_reason", byWhy)
 		r.Require("operations", 10000)
 		r.Require("stale_entry_checks", 1000)
+		r.Require("policy_order_decides_session_paths", 1000)
+		r.Require("no_advertise_behind_no_export_on_ibgp_session_paths", 1000)
 	})
 }
 
